@@ -43,8 +43,12 @@ FEATURES = [
     ("bignum", "zzvx_b(123456789012345678901234567890).\nzzvx_b(1).\n"),
 ]
 PREDS = ["zzvx_s", "zzvx_r", "zzvx_d", "zzvx_p", "zzvx_q", "zzvx_m", "zzvx_o", "zzvx_u", "zzvx_i", "zzvx_str", "zzvx_f", "zzvx_b"]
-PROBE = ("L = [" + ",".join("R%d" % i for i in range(len(PREDS))) + ",Ops], " +
-         ", ".join("catch(findall(X%d, %s(X%d), R%d), error(E%d, _), R%d = err(E%d))" % (i, p, i, i, i, i, i)
+# every predicate is observed by calling it and through clause/2 (the clause
+# store of dynamic predicates is separate from their compiled code)
+PROBE = ("L = [" + ",".join("R%d,C%d" % (i, i) for i in range(len(PREDS))) + ",Ops], " +
+         ", ".join("catch(findall(X%d, %s(X%d), R%d), error(E%d, _), R%d = err(E%d)), "
+                   "catch(findall(Y%d-B%d, clause(%s(Y%d), B%d), C%d), error(F%d, _), C%d = err(F%d))"
+                   % (i, p, i, i, i, i, i, i, i, p, i, i, i, i, i, i)
                    for i, p in enumerate(PREDS)) +
          ", findall(P-T, current_op(P, T, zzvx_op), Ops).")
 APIS = ["load", "consult"]
